@@ -185,3 +185,58 @@ func VerifNilHelper(kind int, isNil bool) (out string) {
 		return "ran"
 	}
 }
+
+// verifStore is a minimal acknowledging adapter (never used by the library itself).
+type verifStore struct {
+	items [][]byte
+	enq   int
+}
+
+func (s *verifStore) Len() int                   { return len(s.items) }
+func (s *verifStore) Values() []any              { return nil }
+func (s *verifStore) Purge()                     { s.items = nil }
+func (s *verifStore) Close() error               { return nil }
+func (s *verifStore) Acknowledge(id string) bool { return true }
+func (s *verifStore) Enqueue(item any) bool {
+	s.enq++
+	b, ok := item.([]byte)
+	if !ok {
+		return false
+	}
+	s.items = append(s.items, b)
+	return true
+}
+func (s *verifStore) Dequeue() (any, bool) {
+	if len(s.items) == 0 {
+		return nil, false
+	}
+	b := s.items[0]
+	s.items = s.items[1:]
+	return b, true
+}
+func (s *verifStore) DequeueWithAckId() (any, bool, string) {
+	v, ok := s.Dequeue()
+	return v, ok, "a"
+}
+
+// VerifAddUnencodable submits a payload that encoding/json cannot encode to a persistent queue of a worker that has
+// not been started (nothing is dispatched) and reports: accepted?, calls of the adapter's Enqueue, entries on the
+// adapter, Submitted, NumPending.
+func VerifAddUnencodable(kind int) (bool, int, int, uint64, int) {
+	var payload any
+	switch kind {
+	case 0:
+		payload = make(chan int)
+	case 1:
+		payload = func() {}
+	case 2:
+		payload = map[string]any{"x": make(chan int)}
+	default:
+		payload = []any{1, func() {}}
+	}
+	w := newWorker(func(j iJob[any]) {})
+	st := &verifStore{}
+	q := newPersistentQueue[any](w, st)
+	ok := q.Add(payload)
+	return ok, st.enq, len(st.items), w.metrics.Submitted(), w.NumPending()
+}
